@@ -214,6 +214,21 @@ func init() {
 		Outside:     []string{"10^2-10^4 calls, 3-16 goroutines, GOMAXPROCS effects (stress testing is a different technique family)", "LoadPkg autoloading from files, call-depth counters"},
 	})
 
+	reg(Check{
+		ID:  "C11",
+		Pkg: "verif/harness/c11",
+		Runs: []RunDef{
+			{Fn: "H_alone", Fuel: 30_000_000, Tier: "quick", Reach: []string{"end"}},
+			{Fn: "H_two", Fuel: 30_000_000, Tier: "quick", Sched: true, Preempt: 2, Reach: []string{"end"}, NativeTwin: "N_reentrant"},
+			{Fn: "H_two_locals", Fuel: 30_000_000, Tier: "quick", Sched: true, Preempt: 2, Reach: []string{"end"}, NativeTwin: "N_reentrant"},
+			{Fn: "H_two", Fuel: 30_000_000, Tier: "thorough", Sched: true, Preempt: 3, Reach: []string{"end"}, NativeTwin: "N_reentrant"},
+			{Fn: "H_two_locals", Fuel: 30_000_000, Tier: "thorough", Sched: true, Preempt: 3, Reach: []string{"end"}, NativeTwin: "N_reentrant"},
+		},
+		Rule:        rule + "; two requests with distinct parameters are served by the real Handler.ServeHTTP (beginRequest/beginResponse, per-request Context, script handler parsed by the real parser) in two engine threads; the package-level superglobal caches are marked shared so each access is a schedule point and all interleavings within the preemption bound are explored; each response body must equal what the handler yields for that request alone; handler 1 reads $_GET twice around a loop, handler 2 uses the request object, locals, a loop, an array and an object only",
+		Assumptions: []string{"requests are built directly (no sockets); the recorder is a plain http.ResponseWriter", "internal/godebug settings read as unset"},
+		Outside:     []string{"3-64 requests in flight, middlewares, sessions, $_FILES, $_POST/$_COOKIE/$_SERVER handlers", "seeded parallel load (different technique family)"},
+	})
+
 	c17 := func(fn string, p map[string]int) RunDef {
 		return RunDef{Fn: fn, Params: p, Tier: "quick", Reach: []string{"end"}}
 	}
